@@ -1,7 +1,114 @@
 import CogentModel.Json
-open CogentModel
+import CogentModel.Model.PhyloTree
+import CogentModel.Model.PhyloNewick
+import CogentModel.Model.PhyloTreeDist
+import CogentModel.Model.PhyloMidpoint
+import CogentModel.Spec.PhyloSplits
+open CogentModel CogentModel.Phylo
 
-def handle (cmd : String) (_j : J) : Except String J :=
-  throw s!"unknown command {cmd}"
+abbrev T := PTree Rat
+
+partial def treeOfJ (j : J) : Except String T := do
+  match ← j.toList with
+  | [n, l, cs] =>
+    let name ← n.toStr
+    let len ← match l with
+      | J.null => pure none
+      | x => do pure (some (← x.toRat))
+    let kids ← (← cs.toList).mapM treeOfJ
+    pure (.node name len kids)
+  | _ => throw "bad tree"
+
+partial def treeToJ : T → J
+  | .node n l cs => J.arr [J.str n, (match l with | none => J.null | some q => J.ofRat q), J.arr (cs.map treeToJ)]
+
+def errStr : TErr → String
+  | .treeError => "TreeError"
+  | .valueError => "ValueError"
+  | .attributeError => "AttributeError"
+  | .typeError => "TypeError"
+
+def errJ (e : TErr) : J := J.obj [("err", J.str (errStr e))]
+
+def strsOfJ (j : J) : Except String (List String) := j.toListOf J.toStr
+
+/-- observation of one tree: the ordered nested form, tips, the distance dict as written by
+`_get_distances`, and the specification distance for every ordered pair of distinct tips -/
+def observe (t : T) (withSpec : Bool) : J :=
+  let ts := tips t
+  let d := getDistances (1 : Rat) t
+  let spec : List J :=
+    if withSpec then
+      ts.flatMap fun a => ts.filterMap fun b =>
+        if a = b then none else some (J.arr [J.str a, J.str b, J.ofRat (distSpec (1 : Rat) a b t)])
+    else []
+  J.obj [("tree", treeToJ t), ("tips", J.arr (ts.map J.str)),
+         ("dist", J.arr (d.map fun e => J.arr [J.str e.1.1, J.str e.1.2, J.ofRat e.2])),
+         ("spec", J.arr spec)]
+
+def applyOp (t : T) (op : J) : Except String (Except TErr T) := do
+  match ← op.toList with
+  | [J.str "rooted_at", n] => pure (rootedAt t (← n.toStr))
+  | [J.str "rooted_with_tip", n] => pure (rootedWithTip t (← n.toStr))
+  | [J.str "reroot_path", p] =>
+    let path ← p.toListOf J.toNat
+    pure (match rerootAt t path with | some r => .ok r | none => .error .treeError)
+  | [J.str "unrooted"] => pure (.ok (unrooted t))
+  | [J.str "copy"] => pure (.ok t)
+  | [J.str "sorted", o] => pure (.ok (sorted t (← strsOfJ o)))
+  | [J.str "subtree", ns, im, kr, to] =>
+    pure (getSubTree t (← strsOfJ ns) (← im.toBool) (← kr.toBool) (← to.toBool))
+  | [J.str "midpoint"] => pure (rootAtMidpoint t)
+  | _ => throw "bad op"
+
+def runOps (withSpec : Bool) : T → List J → Except String (List J)
+  | _, [] => pure []
+  | t, op :: ops => do
+    match ← applyOp t op with
+    | .ok r => do
+      let rest ← runOps withSpec r ops
+      pure (observe r withSpec :: rest)
+    | .error e => pure [errJ e]
+
+def tokJ : Tok Rat → J
+  | .lp => J.str "(" | .rp => J.str ")" | .comma => J.str "," | .colon => J.str ":" | .semi => J.str ";"
+  | .label s => J.arr [J.str s]
+  | .num k => J.obj [("num", J.ofRat k)]
+
+def tokOfJ : J → Except String (Tok Rat)
+  | J.str "(" => pure .lp | J.str ")" => pure .rp | J.str "," => pure .comma
+  | J.str ":" => pure .colon | J.str ";" => pure .semi
+  | J.arr [J.str s] => pure (.label s)
+  | J.obj [("num", q)] => do pure (.num (← q.toRat))
+  | _ => throw "bad token"
+
+def natRes : Except TErr Nat → J
+  | .ok n => J.num n
+  | .error e => errJ e
+
+def handle (cmd : String) (j : J) : Except String J :=
+  match cmd with
+  | "ops" => do
+    let t ← treeOfJ (← j.get "tree")
+    let ws ← (← j.get "spec").toBool
+    let rest ← runOps ws t (← (← j.get "ops").toList)
+    pure (J.arr (observe t ws :: rest))
+  | "newick" => do
+    let t ← treeOfJ (← j.get "tree")
+    let w ← (← j.get "with_len").toBool
+    let ts := newickToks w t
+    pure (J.obj [("toks", J.arr (ts.map tokJ)),
+                 ("reparsed", match parseToks ts with | some r => treeToJ r | none => J.null)])
+  | "parse" => do
+    let ts ← (← j.get "toks").toListOf tokOfJ
+    pure (match parseToks ts with | some r => treeToJ r | none => errJ .valueError)
+  | "treedist" => do
+    let a ← treeOfJ (← j.get "a")
+    let b ← treeOfJ (← j.get "b")
+    let T := tips a
+    pure (J.obj [("rf", natRes (treeDistanceRF a b)), ("rrf", natRes (rootedRF a b)),
+                 ("urf", natRes (unrootedRF a b)),
+                 ("spec_urf", J.num (symDiffBip T (clusters a) (clusters b)))])
+  | _ => throw s!"unknown command {cmd}"
 
 def main : IO Unit := driverLoop handle
